@@ -62,6 +62,11 @@ func (s *echoService) Handle(ctx context.Context, conn net.Conn) error {
 			if buf[0] == 'Q' {
 				break
 			}
+			if n == 333 {
+				// a chunk of exactly 333 bytes makes the service slow: what the agent sends meanwhile (more data,
+				// end of stream) is waiting for it when it reads again
+				time.Sleep(40 * time.Millisecond)
+			}
 		}
 		if err != nil {
 			break
